@@ -274,4 +274,14 @@ Protocol ==
   /\ (Terminated /\ spawn = "ok" => status # "" /\ wpc = "done" /\ ~winOpen /\ pin = 0 /\ pout = <<>>)  \* nothing left behind
 
 Termination == <>Terminated
+
+\* the `fmt` hook event that the parent has emitted last (Mode "thread"), and the refinement that
+\* Trace_Formatter relies on: the parent's steps follow FormatterRules!NextStep
+LastStep == CASE spawn # "ok" \/ ppc = "spawn" -> "start"
+              [] ppc \in {"startWriter", "syncWrite", "drain"} -> "spawned"
+              [] ppc = "wait" -> "drain_eof"
+              [] ppc = "join" -> "waited"
+              [] OTHER -> "joined"
+StepsFollowNextStep ==
+  [][LastStep' # LastStep => LastStep \in DOMAIN NextStep /\ NextStep[LastStep] = LastStep']_vars
 =============================================================================
